@@ -7,7 +7,7 @@ INV = ["Efficiency", "FaultAtomic", "LockStep", "RunningStatistic", "VarNonNegat
        "NeverOwnBackground"]
 PROPS = ["StoreAfterExplanation", "SeenCountsReturns"]
 BASE = dict(Mode='"sage"', D=2, NInner=2, Kind='"es"', Alpha="A_1_2", StoreKind='"interval"', Cap=2,
-            Strategy='"joint"', ModelKind='"scalar"', CommitEarly="FALSE", MaxCalls=3, MaxFaults=1, AllowNoUpd="FALSE")
+            Strategy='"joint"', NOver=0, ModelKind='"scalar"', CommitEarly="FALSE", MaxCalls=3, MaxFaults=1, AllowNoUpd="FALSE")
 CONFIGS = {
     # quick
     "sage_a": {},
@@ -24,6 +24,11 @@ CONFIGS = {
                   AllowNoUpd="TRUE"),
     "pfi_c": dict(Mode='"pfi"', D=3, NInner=1, Alpha="A_1_3"),
     "pfi_d": dict(Mode='"pfi"', Kind='"welford"', StoreKind='"batch"', MaxCalls=4, NInner=1, MaxFaults=2),
+    # per-call n_inner_samples override, DefaultImputer
+    "sage_o": dict(NInner=1, NOver=2),
+    "pfi_o": dict(Mode='"pfi"', NInner=2, NOver=1),
+    "sage_def": dict(Strategy='"default"', NInner=2, NOver=1),
+    "pfi_def": dict(Mode='"pfi"', Strategy='"default"', NInner=2),
 }
 LOGS = {
     # fault-free behaviours (C01-C03, C15) and behaviours with faults (C17)
@@ -43,6 +48,10 @@ LOGS = {
                      NInner=1, MaxFaults=0, AllowNoUpd="TRUE"),
     "sage_d3": dict(D=3, NInner=1, Alpha="A_1_3", MaxFaults=0),
     "sage_ff": dict(NInner=1, MaxFaults=2, MaxCalls=3),
+    "sage_o": dict(NInner=1, NOver=2, MaxFaults=0),
+    "pfi_o": dict(Mode='"pfi"', NInner=2, NOver=1, MaxFaults=0),
+    "sage_def": dict(Strategy='"default"', NInner=2, MaxFaults=0),
+    "sage_fdef": dict(Strategy='"default"', NInner=1, MaxFaults=1),
 }
 
 
